@@ -154,7 +154,11 @@ def check_restarts(cur):
         # (b) one step size per block at pre_step
         dts = [a['pre']['dt'] for a in blk]
         if len(set(dts)) > 1:
-            cur.v('block_step_sizes_differ', block=blk[0]['block'], dts=dts)
+            if getattr(cur, 'is_second_leg', False) and bi == 0:
+                # recorded finding: run() does not equalise the step sizes the steps kept from the previous run
+                cur.viol.append(({'kind': 'block_step_sizes_differ', 'cause': 'step sizes left over from the previous run on the same controller'}, {'dts': dts, 'cfg': cfg_key_small(cfg)}))
+            else:
+                cur.v('block_step_sizes_differ', block=blk[0]['block'], dts=dts)
         t_first = blk[0]['time']
         n_before = failed_attempts_before(blks, bi)
         run_len = n_before + 1
